@@ -1050,6 +1050,22 @@ def truc_rule_table(ctx, crate):
             if not tested:
                 ctx.add(['C18'], 'H-TABLE', x.key, 'the type table is written by an unconditional `BTreeMap::insert` at %s: registering a name that is already there overwrites the entry (even if the call then panics), so the table no longer answers what was registered first' % fmt_span(tm['span']), key='overwrite|%s' % x.path)
     ctx.inst('H-TABLE', 'the table is only written through vacant entries / tested inserts (%d plain inserts)' % n_ins)
+    # the JSON forms are siblings: every writer serialises the same thing, the map of entries (what the
+    # reader, `From<BTreeMap<String, DynamicTypeInfo>>`, takes)
+    writers = [x for x in crate.bodies if re.match(r'^%sStaticTypeResolver::to_json_[a-z_]+$' % re.escape(R), x.path)]
+    shapes = {}
+    for x in writers:
+        xd = local_defs(x)
+        for bb, tm in x.calls():
+            cp = callee_path(tm) or ''
+            if cp.startswith('serde_json::') and re.search(r'::to_(value|string|string_pretty|vec|vec_pretty|writer|writer_pretty)$', cp):
+                arg = trace_value(x, xd, tm['args'][-1] if 'writer' not in cp else tm['args'][-1])[-1]
+                fields = [e.get('name') for e in arg[2]['p'] if isinstance(e, dict) and 'name' in e] if arg[0] == 'ref' else None
+                shapes[x.path.split('::')[-1]] = ('field:' + '.'.join(fields)) if fields else ('self' if arg[0] in ('param', 'ref') else arg[0])
+    if writers and (len(shapes) != len(writers) or set(shapes.values()) != {'field:types'}):
+        ctx.add(['C18'], 'H-SERDE', R + 'StaticTypeResolver', 'the JSON writers of the table do not all serialise the map of entries: %s — a form written by one of them is not what the reader (a map of entries) takes back' % shapes, key='json-writers')
+    elif writers:
+        ctx.inst('H-SERDE', 'all %d JSON writers serialise `self.types`' % len(writers))
     ctx.floor(['C18'], 'H-TABLE', 5)
     ctx.floor(['C18'], 'H-SERDE', 4)
 
@@ -2673,6 +2689,43 @@ def truc_rule_current(ctx, crate):
             if m and 'Iterator' in dp:
                 ctx.add(['C12', 'C13'], 'B-CURRENT', x.key, '`%s` at %s cuts the walk over the builder\'s bookkeeping short: data after the first element that fails the test (or beyond the prefix) are ignored although they are still part of the variant' % (m.group(1), fmt_span(tm['span'])), key='truncating|%s|%s' % (x.path, m.group(1)))
     ctx.inst('B-CURRENT', 'no truncating iterator adaptor in the %d bodies of the generic builder' % n_scanned)
+    # the `*_while` adaptors are `filter` / `filter_map` lookalikes that stop at the first element failing
+    # the test; nothing in truc walks a sorted or prefix-structured sequence, so they are denied crate-wide
+    # (outside tests), attributed to the property of the module they appear in
+    WHILE = re.compile(r'::(take_while|skip_while|map_while)$')
+    MODPROPS = (('truc::record::type_name', ['C17']), ('truc::record::type_resolver', ['C17', 'C18']), ('truc::record::definition::convert', ['C20']),
+                ('truc::record::definition::builder::native::variant', ['C02', 'C03']), ('truc::record::definition::builder::generic::variant', ['C03', 'C12']),
+                ('truc::record::definition::builder', ['C12']), ('truc::record::definition', ['C12', 'C13']), ('truc::generator', ['C13', 'C19']))
+    n_all = 0
+    for x in crate.bodies:
+        if '::tests::' in x.path or (crate.name if hasattr(crate, 'name') else 'truc') != 'truc' and not x.path.startswith('truc::') and not x.path.startswith('<truc::'):
+            continue
+        n_all += 1
+        for bb, tm in x.calls():
+            dp = callee_decl_path(tm) or callee_path(tm) or ''
+            m = WHILE.search(dp)
+            if m and 'Iterator' in dp:
+                mod = x.module or ''
+                pr = next((pp for mm, pp in MODPROPS if mod == mm or mod.startswith(mm + '::') or x.path.startswith(mm) or x.path.startswith('<' + mm)), ['C13'])
+                ctx.add(pr, 'B-CURRENT', x.key, '`%s` at %s stops at the first element that fails its test: the elements after it are silently left out (`filter` / `filter_map` keep going)' % (m.group(1), fmt_span(tm['span'])), key='while|%s|%s' % (x.path, m.group(1)))
+    ctx.inst('B-CURRENT', 'no take_while / skip_while / map_while in the %d non-test bodies of the crate' % n_all)
+    # a lookup by name searches the data of the variant asked for (resp. the current data), not every definition
+    # ever made: names are reused across the history, ids are not
+    crate.body(DDC + 'iter')      # (an anchor: the walk over the whole collection stays a call in the helper view)
+    for fn in ('get_variant_datum_definition_by_name', 'get_current_datum_definition_by_name'):
+        fb = crate.body(GB + fn)
+        if fb is None:
+            continue
+        bad = None
+        for x in [fb] + crate.closures_of(fb.path):
+            for bb, tm in x.calls():
+                cp = callee_path(tm) or ''
+                if (cp.startswith(DDC) and cp[len(DDC):] in ('iter', 'iter_mut', 'into_iter', 'values')) or (cp.startswith('<') and 'DatumDefinitionCollection' in cp and cp.endswith('::into_iter')):
+                    bad = fmt_span(tm['span'])
+        if bad:
+            ctx.add(['C12'], 'B-CURRENT', fb.key, '%s walks every datum definition ever made (%s) instead of the data of the variant: a name re-used later in the history is answered with the older datum, or not at all' % (fn, bad), key='%s|whole-collection' % fn)
+        else:
+            ctx.inst('B-CURRENT', '%s looks definitions up by the ids of the variant' % fn)
     ctx.floor(['C12'], 'B-CURRENT', 3)
 
 
